@@ -4,7 +4,7 @@ COMMON_ASSUMPTIONS = [
     "Agave 2.1.20 runtime (solana-program-test) and its bundled SPL Token / Token-2022 / ATA programs are trusted",
     "marginfi is compiled natively from /repo's working tree with the on-chain arithmetic profile (overflow-checks on, debug-assertions off); native code generation stands in for SBF; CU/heap/tx-size limits are not modelled",
     "oracle side uses exact rationals (num-rational) over raw account bytes decoded with the repository's #[repr(C)] layouts; no program math is called by an oracle",
-    "kamino_deposit / kamino_withdraw run their accept path against a harness-side stateful stand-in registered at the Kamino program id (it keeps reserve / obligation books with the venue's floor rounding and moves real tokens; it is not the venue program); Drift/Solend handlers are not executed on their accept path (venue programs absent); see DESIGN sections 10 and 12",
+    "the pass-through deposit / withdraw instructions (kamino_*, solend_*, drift_*) run their accept path against harness-side stateful stand-ins registered at the venue program ids (they keep the venue's books with the venue's own rounding and move real tokens; they are not the venue programs); *_init_obligation / drift_init_user / *_harvest_reward are not driven; see DESIGN sections 10 and 12.4",
 ]
 
 
@@ -46,9 +46,9 @@ PROPS = {
     },
     "C16": {
         "engines": [storm(sq=12, st=12), storm("venue", arg="C16:venue", sq=4, st=4)],
-        "rule": "each evaluation is the structural predicate on one MarginfiAccount after one instruction or at one commit; distinct = (where, number of active positions, tag set, flags); the venue engine drives worlds with up to 10 Kamino pass-through banks and saturates the integration cap (one account enters every venue bank in turn)",
-        "assumptions": COMMON_ASSUMPTIONS + ["integration positions are opened through kamino_deposit and liquidation only (one integration kind); the cap shared across kinds is exercised with Kamino positions alone"],
-        "floors": {"quick": {"ix_ok/Deposit": 500, "ix_ok/Borrow": 100, "ix_ok/KaminoDeposit": 300, "venue.cap_probes_saturated_at_8": 3}},
+        "rule": "each evaluation is the structural predicate on one MarginfiAccount after one instruction or at one commit; distinct = (where, number of active positions, tag set, flags); the venue engine drives worlds with up to 10 pass-through banks of three kinds (Kamino, Solend, Drift) and saturates the integration cap (one account enters every venue bank in turn)",
+        "assumptions": COMMON_ASSUMPTIONS + ["integration positions of all three kinds (Kamino, Solend, Drift) are opened through the venue stand-ins and through liquidation"],
+        "floors": {"quick": {"ix_ok/Deposit": 500, "ix_ok/Borrow": 100, "ix_ok/KaminoDeposit": 200, "ix_ok/SolendDeposit": 100, "ix_ok/DriftDeposit": 100, "venue.cap_probes_saturated_at_8": 3}},
     },
     "C17": {
         "engines": [storm()],
@@ -107,9 +107,9 @@ PROPS = {
     },
     "C20": {
         "engines": [direct("C20", sq=10, st=10), storm("venue", sq=4, st=4), dict(storm("venue-wrapcheck", sq=2, st=2), profile="dbgassert")],
-        "rule": "direct engine: each evaluation is one call of a venue conversion / adjustment / staleness function on inputs clustered at overflow cliffs, judged against exact rationals; distinct = (venue, decimals, magnitude classes of supplies and amount). venue engine (chain rig): each evaluation is one accepted kamino_deposit / kamino_withdraw executed against the stateful venue stand-in, judged in exact rationals on what marginfi booked versus what the venue credited or paid (position credit <= venue collateral credited, credit worth <= tokens paid, tokens received <= worth of the position decrease, bank books <= obligation collateral, pass-through vault unchanged), plus deposit-then-withdraw-all round trips and borrow / withdraw probes against a reserve that was not refreshed in the current slot; the venue-wrapcheck engine runs the same workload on a build with debug assertions on, where the fixed-point operators and from_num check overflow instead of wrapping (an overflow panic inside price / venue conversion code marks a silently wrapped value in the deployed profile); distinct adds (instruction, rate class, decimals, empty reserve, withdraw-all, injected venue rounding fault)",
-        "assumptions": ["'never rounds in the user's favour' is judged as the statement defines it (round trips, Drift decrement >= increment); comparison against the exact quotient allows the derived truncation error of the scaled supplies", "the venue engine runs kamino_deposit / kamino_withdraw against a harness-side stand-in of the venue (floor rounding in the venue's favour, optional injected off-by-one/two rounding faults), not the venue program; Drift and Solend handlers are judged by the direct engine only"],
-        "floors": {"quick": {"C20.round_trips": 30000, "C20.monotonicity_pairs": 12000, "C20.adjust_i64/some": 6000, "C20.drift_inc_dec/ok": 6000, "C20.venue_ops/KaminoDeposit": 1000, "C20.venue_ops/KaminoWithdraw": 300, "C20.chain_round_trips": 10, "venue.stale_reserve_borrow_rejected": 10, "wrapcheck.committed_transactions_observed_under_debug_assertions": 2000}},
+        "rule": "direct engine: each evaluation is one call of a venue conversion / adjustment / staleness function on inputs clustered at overflow cliffs, judged against exact rationals; distinct = (venue, decimals, magnitude classes of supplies and amount). venue engine (chain rig): each evaluation is one accepted kamino / solend / drift deposit or withdraw executed against the stateful venue stand-ins, judged in exact rationals on what marginfi booked versus what the venue credited or paid (position credit <= venue collateral credited, credit worth <= tokens paid, tokens received <= worth of the position decrease, bank books <= obligation collateral, pass-through vault unchanged), plus deposit-then-withdraw-all round trips and borrow / withdraw probes against a reserve that was not refreshed in the current slot; the venue-wrapcheck engine runs the same workload on a build with debug assertions on, where the fixed-point operators and from_num check overflow instead of wrapping (an overflow panic inside price / venue conversion code marks a silently wrapped value in the deployed profile); distinct adds (instruction, rate class, decimals, empty reserve, withdraw-all, injected venue rounding fault)",
+        "assumptions": ["'never rounds in the user's favour' is judged as the statement defines it (round trips, Drift decrement >= increment); comparison against the exact quotient allows the derived truncation error of the scaled supplies", "the venue engines run the pass-through instructions against harness-side stand-ins of Kamino, Solend and Drift (the venue's own rounding - floor in the venue's favour, Drift's round-up of non-zero decrements - optional injected off-by-one/two rounding faults), not the venue programs"],
+        "floors": {"quick": {"C20.round_trips": 30000, "C20.monotonicity_pairs": 12000, "C20.adjust_i64/some": 6000, "C20.drift_inc_dec/ok": 6000, "C20.venue_ops/KaminoDeposit": 500, "C20.venue_ops/KaminoWithdraw": 150, "C20.venue_ops/SolendDeposit": 300, "C20.venue_ops/SolendWithdraw": 100, "C20.venue_ops/DriftDeposit": 300, "C20.venue_ops/DriftWithdraw": 100, "C20.chain_round_trips": 10, "venue.stale_reserve_borrow_rejected": 10, "wrapcheck.committed_transactions_observed_under_debug_assertions": 2000}},
     },
     "C08": {
         "engines": [storm("matrix")],
